@@ -17,7 +17,8 @@ Consume ==
     /\ LET e == Ev IN
        CASE e.k = "reset" -> Reset(e.cap)
          [] e.k = "op" -> /\ Next
-                          /\ last' = [a |-> e.a, i |-> e.i, s |-> e.s, r |-> e.r, v |-> e.v, d |-> e.d]
+                          \* the elements are plain integers: no drop accounting (d is not compared)
+                          /\ last'.a = e.a /\ last'.i = e.i /\ last'.s = e.s /\ last'.r = e.r /\ last'.v = e.v
                           /\ ObsMatch(e.o)
          [] OTHER -> FALSE
 
